@@ -178,6 +178,47 @@ func c14Pathological() []*load.Case {
 	add("submodule-as-main", "submodule s { belongs-to a { prefix a; } leaf l { type string; } }", nil)
 	add("module-where-submodule", hdr("a")+"include b; }", map[string]string{"b": hdr("b") + "leaf l { type string; } }"})
 	add("submodule-where-module", hdr("a")+"import s { prefix s; } }", map[string]string{"s": "submodule s { belongs-to a { prefix a; } }"})
+	add("belongs-to-other-module", hdr("a")+"include s; }", map[string]string{"s": "submodule s { belongs-to zz { prefix z; } leaf l { type string; } }"})
+	add("uses-grouping-wrong-prefix", hdr("a")+"import b { prefix p1; } uses p2:g; }", map[string]string{"b": hdr("b") + "grouping g { leaf x { type string; } } }"})
+	add("augment-target-is-leaf", hdr("a")+"leaf l { type string; } augment /l { leaf z { type string; } } }", nil)
+	add("augment-target-is-choice", hdr("a")+"choice c { leaf x { type string; } } augment /c { leaf z { type string; } } }", nil)
+	add("augment-target-in-case", hdr("a")+"choice c { case k { leaf x { type string; } } } augment /c/k { leaf z { type string; } } }", nil)
+	add("deviation-replace-missing-property", hdr("a")+"leaf l { type string; } deviation /l { deviate replace { units m; default q; } } }", nil)
+	add("deviation-delete-missing-property", hdr("a")+"leaf l { type string; } deviation /l { deviate delete { units m; default q; must \"x\"; } } }", nil)
+	add("deviation-add-to-container", hdr("a")+"container c { } deviation /c { deviate add { default q; units u; max-elements 3; } } }", nil)
+	add("deviation-target-container-type", hdr("a")+"container c { } deviation /c { deviate replace { type string; } } }", nil)
+	add("key-leaf-under-choice", hdr("a")+"list l { key k; choice c { leaf k { type string; } } } }", nil)
+	add("key-is-container", hdr("a")+"list l { key k; container k { } } }", nil)
+	add("leafref-above-root", hdr("a")+"leaf l { type leafref { path \"../../../x\"; } } }", nil)
+	add("leafref-to-container", hdr("a")+"container c { } leaf l { type leafref { path \"../c\"; } } }", nil)
+	add("leafref-empty-path", hdr("a")+"leaf l { type leafref { path \"\"; } } }", nil)
+	add("leafref-absolute-other-module", hdr("a")+"leaf l { type leafref { path \"/zz:x/y\"; } } }", nil)
+	add("empty-args", hdr("a")+"leaf l { type string; when \"\"; must \"\"; units \"\"; description \"\"; } list q { key \"\"; unique \"\"; leaf k { type string; } } }", nil)
+	add("range-double-dots", hdr("a")+"leaf l { type int32 { range \"1..2..3\"; } } leaf m { type int32 { range \"max..min\"; } } leaf n { type string { length \"|\"; } } }", nil)
+	add("range-huge", hdr("a")+"leaf l { type int32 { range \"1..99999999999999999999999\"; } } leaf m { type decimal64 { fraction-digits 99; range \"1.5..x\"; } } }", nil)
+	add("feature-self", hdr("a")+"feature f { if-feature f; } leaf l { if-feature f; type string; } }", nil)
+	add("feature-cycle", hdr("a")+"feature f { if-feature g; } feature g { if-feature f; } leaf l { if-feature \"f or g\"; type string; } }", nil)
+	add("if-feature-unknown", hdr("a")+"leaf l { if-feature nope; type string; } }", nil)
+	add("union-empty", hdr("a")+"leaf l { type union { } } }", nil)
+	add("union-of-leafref", hdr("a")+"leaf x { type string; } leaf l { type union { type leafref { path \"../x\"; } type int32; } } }", nil)
+	add("enum-no-members", hdr("a")+"leaf l { type enumeration; } leaf m { type bits; } leaf n { type identityref; } leaf o { type leafref; } leaf p { type decimal64; } }", nil)
+	add("identityref-unknown-base", hdr("a")+"leaf l { type identityref { base nope; } } }", nil)
+	add("identityref-base-other-prefix", hdr("a")+"leaf l { type identityref { base zz:i; } } }", nil)
+	add("typedef-default-bad", hdr("a")+"typedef t { type int32 { range \"1..5\"; } default 99; } leaf l { type t; } }", nil)
+	add("choice-case-name-clash", hdr("a")+"choice c { case x { leaf a { type string; } } case y { leaf a { type string; } } } }", nil)
+	add("dup-siblings", hdr("a")+"leaf a { type string; } container a { } }", nil)
+	add("dup-typedef", hdr("a")+"typedef t { type string; } typedef t { type int32; } leaf l { type t; } }", nil)
+	add("dup-grouping", hdr("a")+"grouping g { leaf x { type string; } } grouping g { leaf y { type string; } } uses g; }", nil)
+	add("dup-identity", hdr("a")+"identity i; identity i; }", nil)
+	add("rpc-input-twice", hdr("a")+"rpc r { input { leaf a { type string; } } input { leaf b { type string; } } } }", nil)
+	add("action-in-rpc", hdr("a")+"rpc r { input { container c { action x; } } } }", nil)
+	add("notification-in-grouping-used-twice", hdr("a")+"grouping g { notification n { leaf x { type string; } } action a { input { leaf y { type string; } } } } container c1 { uses g; } container c2 { uses g; } }", nil)
+	add("uses-with-refine-and-augment", hdr("a")+"grouping g { container c { leaf x { type string; } } } uses g { refine c/x { default d; } augment c { leaf y { type string; } } } }", nil)
+	add("uses-when", hdr("a")+"grouping g { leaf x { type string; } } uses g { when \"../y='1'\"; } leaf y { type string; } }", nil)
+	add("import-revision-missing", hdr("a")+"import b { prefix b; revision-date 1999-01-01; } }", map[string]string{"b": hdr("b") + "}"})
+	add("import-no-prefix", hdr("a")+"import b; }", map[string]string{"b": hdr("b") + "}"})
+	add("import-same-prefix-twice", hdr("a")+"import b { prefix p; } import c { prefix p; } }", map[string]string{"b": hdr("b") + "}", "c": hdr("c") + "}"})
+	add("import-own-prefix", hdr("a")+"import b { prefix a; } leaf l { type a:t; } }", map[string]string{"b": hdr("b") + "typedef t { type string; } }"})
 	add("empty", "", nil)
 	add("only-comment", "// nothing", nil)
 	add("only-block-comment-open", "/* nothing", nil)
